@@ -67,17 +67,25 @@ theorem half_unit (m q : Nat) (hq : 0 < q) :
 
 /-! ## the numeric path never panics -/
 
+theorem fractionNumber_ne_panic (items : List Tok) (up : Bool) (n : NumIn) :
+    fractionNumber items up n ≠ .panic := by
+  unfold fractionNumber
+  dsimp only
+  split <;> simp
+
 theorem numberHandler_ne_panic (items : List Tok) (value : Str) (up : Bool) (n : NumIn) :
     numberHandler items value up n ≠ .panic := by
   unfold numberHandler
   split
   · simp
-  · dsimp only
-    split
-    · simp
-    · split
-      · split <;> simp
+  · split
+    · exact fractionNumber_ne_panic items up n
+    · dsimp only
+      split
       · simp
+      · split
+        · split <;> simp
+        · simp
 
 theorem positiveLoop_no_date (items : List Tok) (value : Str) (up : Bool) (n : NumIn) (d : DateIn) :
     ∀ (ts : List Tok) (fmtNum : Bool), (∀ t ∈ ts, isDateTok t = false) →
